@@ -147,15 +147,56 @@ impl World {
         if let Some(n) = self.coord.workers.get_mut(&wid(w)) { n.status = st; }
         self.emit(ctx, &format!("setstatus {} {}", w, name), "ok");
     }
-    fn plan(&mut self, ctx: &mut Ctx, specs: &[Spec]) -> Option<DeployGroupPlan> {
-        let spec = PipelineGroupSpec {
+    fn mk_spec(specs: &[Spec]) -> PipelineGroupSpec {
+        PipelineGroupSpec {
             name: "g".into(),
             pipelines: specs.iter().map(|s| PipelinePlacement {
                 name: s.name.clone(), source: "stream X = Y".into(), worker_affinity: s.aff.map(|a| format!("w{}", a)),
                 replicas: s.replicas, partition_key: None,
             }).collect(),
             routes: vec![],
-        };
+        }
+    }
+    /// monolithic `deploy_group` against the mock worker with scripted deploy outcomes
+    fn dgroup(&mut self, ctx: &mut Ctx, rt: &tokio::runtime::Runtime, specs: &[Spec], outcomes: &[bool]) {
+        let before: HashSet<String> = self.coord.pipeline_groups.keys().cloned().collect();
+        { let mut s = self.script.lock().unwrap(); s.clear(); s.extend(outcomes.iter().copied()); }
+        let r = rt.block_on(self.coord.deploy_group(Self::mk_spec(specs)));
+        self.script.lock().unwrap().clear();
+        let newg: Option<String> = self.coord.pipeline_groups.keys().find(|k| !before.contains(*k)).cloned();
+        match newg {
+            None => {
+                let a = match r { Err(ClusterError::NoWorkersAvailable) => "noworkers".to_string(), Err(e) => format!("err:{}", e.to_string().replace(' ', "_")), Ok(_) => "ok-without-group".into() };
+                self.emit(ctx, &format!("dgroup 0 {} -", specs_text(specs)), &a);
+            }
+            Some(g) => {
+                let gi = self.gid_of(&g);
+                let mut res: Vec<String> = Vec::new();
+                'outer: for sp in specs {
+                    let c = sp.replicas.max(1);
+                    for i in 0..c {
+                        let name = if c > 1 { format!("{}#{}", sp.name, i) } else { sp.name.clone() };
+                        match self.coord.pipeline_groups[&g].placements.get(&name) {
+                            Some(d) => res.push(format!("{}@{}:{}", name, wnum(&d.worker_id), if d.status == PipelineDeploymentStatus::Running { 1 } else { 0 })),
+                            None => break 'outer,
+                        }
+                    }
+                }
+                let a = match r { Ok(_) => "ok".to_string(), Err(ClusterError::NoWorkersAvailable) => "noworkers".to_string(), Err(e) => format!("err:{}", e.to_string().replace(' ', "_")) };
+                self.emit(ctx, &format!("dgroup {} {} {}", gi, specs_text(specs), if res.is_empty() { "-".to_string() } else { res.join(",") }), &a);
+            }
+        }
+    }
+    /// `reconcile_placements` with every re-deploy succeeding or every one failing
+    fn reconcile(&mut self, ctx: &mut Ctx, rt: &tokio::runtime::Runtime, ok: bool) {
+        { let mut s = self.script.lock().unwrap(); s.clear(); if !ok { s.extend(std::iter::repeat(false).take(64)); } }
+        let n = rt.block_on(self.coord.reconcile_placements());
+        self.script.lock().unwrap().clear();
+        if n > 0 { ctx.count("reconcile.redeployed_something"); }
+        self.emit(ctx, &format!("reconcile {}", if ok { "ok" } else { "fail" }), &format!("n:{}", n));
+    }
+    fn plan(&mut self, ctx: &mut Ctx, specs: &[Spec]) -> Option<DeployGroupPlan> {
+        let spec = Self::mk_spec(specs);
         match self.coord.plan_deploy_group(&spec) {
             Ok(p) => {
                 let t = p.tasks.iter().map(|t| format!("{}@{}", t.replica_name, wnum(&t.worker_id))).collect::<Vec<_>>().join(",");
@@ -314,6 +355,22 @@ fn new_world(ctx: &mut Ctx, base: &str, script: &Script, timeout_ms: u64, book: 
     World { coord, base: base.to_string(), now: 0, gids: HashMap::new(), next_gid: 0, seen_migs: HashSet::new(), script: script.clone() }
 }
 
+/// skewed start: everything is deployed while only worker 1 exists, then the other workers join, so that
+/// `rebalance` has real work
+fn skew_prologue(ctx: &mut Ctx, rt: &tokio::runtime::Runtime, w: &mut World, nw: u64) {
+    w.register(ctx, 1, 100, 2, 0);
+    let groups = 2 + ctx.rng.below(3);
+    for gi in 0..groups {
+        let specs = vec![Spec { name: format!("s{}", gi), aff: None, replicas: 2 + ctx.rng.below(3) as usize }];
+        if ctx.rng.chance(1, 2) { w.dgroup(ctx, rt, &specs, &[]); }
+        else if let Some(p) = w.plan(ctx, &specs) { let o: Vec<bool> = p.tasks.iter().map(|_| true).collect(); w.commit(ctx, p, &specs, &o); }
+    }
+    for i in 2..=nw { let c = *ctx.rng.pick(&[1usize, 2, 4]); w.register(ctx, i, 100, c, 0); }
+    ctx.count("skewed_start");
+    let o: Vec<bool> = (0..12).map(|_| !ctx.rng.chance(1, 8)).collect();
+    w.rebalance(ctx, rt, &o);
+}
+
 fn gen_specs(ctx: &mut Ctx, names: &[&str], max_worker: u64) -> Vec<Spec> {
     let n = 1 + ctx.rng.below(2) as usize;
     let mut used: Vec<&str> = Vec::new();
@@ -354,12 +411,13 @@ fn run_c33(ctx: &mut Ctx, rt: &tokio::runtime::Runtime, base: &str, script: &Scr
         let mut w = new_world(ctx, base, script, timeout, false);
         let nw = 1 + ctx.rng.below(4);
         ctx.count(&format!("c33.workers={}", nw));
+        if nw >= 3 && ctx.rng.chance(1, 3) { skew_prologue(ctx, rt, &mut w, nw); } else {
         for i in 1..=nw {
             let max = *ctx.rng.pick(&[1usize, 2, 3, 100]);
             let cores = *ctx.rng.pick(&[1usize, 2, 4, 8]);
             w.set_time(w.now + ctx.rng.below(40));
             w.register(ctx, i, max, cores, 0);
-        }
+        } }
         let steps = 12 + ctx.rng.below(20);
         for _ in 0..steps {
             let ids = w.worker_ids();
@@ -385,7 +443,14 @@ fn run_c33(ctx: &mut Ctx, rt: &tokio::runtime::Runtime, base: &str, script: &Scr
                 }
                 9 => w.drainmark(ctx, anyw),
                 10 => { if ctx.rng.chance(1, 2) { w.deregister(ctx, anyw); } else { let max = *ctx.rng.pick(&[1usize, 2, 100]); w.register(ctx, anyw, max, 2, 0); } }
-                11..=15 => { // placement request, usually committed right away
+                11 => { // monolithic deploy_group, or reconcile
+                    if ctx.rng.chance(2, 3) {
+                        let specs = gen_specs(ctx, &["p", "q", "r"], nw);
+                        let o: Vec<bool> = (0..6).map(|_| !ctx.rng.chance(1, 6)).collect();
+                        w.dgroup(ctx, rt, &specs, &o);
+                    } else { let ok = !ctx.rng.chance(1, 4); w.reconcile(ctx, rt, ok); }
+                }
+                12..=15 => { // placement request, usually committed right away
                     let specs = gen_specs(ctx, &["p", "q", "r"], nw);
                     let pinned = specs.iter().any(|s| s.aff.is_some());
                     if let Some(p) = w.plan(ctx, &specs) {
@@ -426,13 +491,14 @@ fn run_c32(ctx: &mut Ctx, rt: &tokio::runtime::Runtime, base: &str, script: &Scr
         let guarded = sc % 2 == 0;
         ctx.count(if guarded { "c32.scenario_guarded" } else { "c32.scenario_free" });
         let mut w = new_world(ctx, base, script, 15000, true);
-        let nw = 2 + ctx.rng.below(2);
-        for i in 1..=nw { let m = *ctx.rng.pick(&[2usize, 4, 100]); let c = *ctx.rng.pick(&[1usize, 4]); w.register(ctx, i, m, c, 0); }
+        let nw = 2 + ctx.rng.below(3);
+        if nw >= 3 && ctx.rng.chance(1, 3) { skew_prologue(ctx, rt, &mut w, nw); } else {
+        for i in 1..=nw { let m = *ctx.rng.pick(&[2usize, 4, 100]); let c = *ctx.rng.pick(&[1usize, 4]); w.register(ctx, i, m, c, 0); } }
         let mut pending: Vec<Pending> = Vec::new();
         let steps = 14 + ctx.rng.below(22);
         for _ in 0..steps {
             let anyw = 1 + ctx.rng.below(nw);
-            let r = ctx.rng.below(26);
+            let r = ctx.rng.below(27);
             // commit something pending?
             if !pending.is_empty() && (guarded || ctx.rng.chance(2, 5)) {
                 let i = ctx.rng.below(pending.len() as u64) as usize;
@@ -469,9 +535,17 @@ fn run_c32(ctx: &mut Ctx, rt: &tokio::runtime::Runtime, base: &str, script: &Scr
                 17 => { // deregistration
                     if !guarded || w.assigned_len(anyw) == 0 && !w.placements().iter().any(|p| p.2 == anyw) { w.deregister(ctx, anyw); }
                 }
-                18 => { // (re-)registration
+                18 => { // (re-)registration, in free histories usually followed by the reconcile of the sweep loop
                     let busy = w.placements().iter().any(|p| p.2 == anyw);
                     if !guarded || !busy { w.register(ctx, anyw, 4, 2, 0); }
+                    if ctx.rng.chance(1, 2) { let ok = !ctx.rng.chance(1, 4); w.reconcile(ctx, rt, ok); }
+                }
+                24 => { // monolithic deploy_group
+                    if w.groups().len() < 3 {
+                        let specs = gen_specs(ctx, &["p", "q"], nw);
+                        let o: Vec<bool> = (0..6).map(|_| !ctx.rng.chance(1, 5)).collect();
+                        w.dgroup(ctx, rt, &specs, &o);
+                    }
                 }
                 19 | 20 => { // drain
                     let all_ok = guarded;
